@@ -123,7 +123,7 @@ static void snap_dir(const char *abs, const char *rel, int perfile)
         if (S_ISDIR(st.st_mode)) { sn("F %s dir\n", r); snap_dir(p, r, perfile); }
         else {
           uint64_t h = 14695981039346656037ull; FILE *f = fopen(p, "rb");
-          if (f) { size_t k; unsigned char b[4096]; while ((k = fread(b, 1, sizeof b, f)) > 0) h = fnv(h, b, k); fclose(f); }
+          if (f) { size_t k, tot = 0; unsigned char b[4096]; while (tot < (4u << 20) && (k = fread(b, 1, sizeof b, f)) > 0) { h = fnv(h, b, k); tot += k; } fclose(f); }
           sn("F %s %ld %016" PRIx64 " %o\n", r, (long)st.st_size, h, (unsigned)(st.st_mode & 0777));
         }
       }
